@@ -14,15 +14,15 @@ add('C04', 'exploration', 'model-based property testing with a wire monitor auto
     'DESIGN.md section 3 C04')
 add('C09', 'exploration', 'model-based property testing with fault injection (terminate/close/peer loss at generated and exhaustively enumerated cut points), bounded-step liveness',
     'terminate()/close()/peer-vanish are injected at generated points and, exhaustively, at every scheduler step of fixed base scenarios; safety clauses are judged on the event and octet logs, liveness as quiescence of a fair drain with both sockets closed.',
-    'Liveness is bounded-step under a fair schedule on the virtual loop, not unbounded liveness; timers off (C14 owns them); abrupt close()/peer loss are exempt from the completion and reporting clauses.',
+    'Liveness is bounded-step under a fair schedule on the virtual loop, not unbounded liveness; timers off (C14 owns them); abrupt close()/peer loss are exempt from the completion and reporting clauses; agent-level shutdown()/stop() cases use one real Agent with 1-4 contacts against scripted cooperative peers.',
     'DESIGN.md section 3 C09')
 add('C07', 'exploration', 'property-based testing + exhaustive cut enumeration; differential against an independent RFC 9174 codec',
     'Conforming peer streams are cut in every way for short streams (all 2^(n-1) compositions), at every single position and octet-by-octet for fixed longer streams, and boundary-directed/randomly for generated streams; the messages a real ContactHandler acts on, the read in which it acts and its buffer occupancy are compared with an independent incremental parser; all message types are round-tripped against the independent codec.',
-    'Trusts vlib/ref9174.py; a read = one recv() on the simulated socket; the contact header travels alone; MSG_REJECT octet order taken from the pinned unit test.',
+    'Trusts vlib/ref9174.py; a read = one recv() on the simulated socket; streams holding an unknown message type (which nobody can frame) are judged metamorphically: same stream, four cut sets, same acted-on sequence and answers; MSG_REJECT octet order taken from the pinned unit test.',
     'DESIGN.md section 3 C07')
 add('C17', 'exploration', 'model-based fuzzing of one real endpoint by a scripted adversarial peer (state-directed message alphabet), exhaustive for short words, Hypothesis beyond',
     'All words of up to 2/3 out-of-place messages in each protocol phase plus generated longer scripts are played against a real ContactHandler; escaping exceptions are bucketed by (type, innermost repo frame), each listed out-of-place message must be answered by MSG_REJECT/SESS_TERM/close, delivered data is compared with a reference reassembly and the endpoint own transfers must still complete.',
-    'Messages are delivered whole (chunking is C07); adversarial ids never collide with own ids; answers are only required for the cases the property lists.',
+    'Messages are delivered whole (chunking is C07) except a refused contact header joined with what follows; adversarial ids collide with own ids only before the session exists or, under back-pressure, for a final ACK whose last segment is still unsent; answers are only required for the cases the property lists.',
     'DESIGN.md section 3 C17')
 add('C14', 'exploration', 'property-based testing on a virtual clock with deadline-directed event placement + exhaustive parameter grid',
     'A real endpoint runs on a virtual millisecond clock against a scripted peer; traffic, user calls and silence are placed at deadline-1ms/deadline/deadline+1ms of each timer, ACK delays drive the segment-size controller, and the timestamped octet log is checked against the negotiated parameters; the keepalive^2 x idle grid is enumerated.',
@@ -30,7 +30,7 @@ add('C14', 'exploration', 'property-based testing on a virtual clock with deadli
     'DESIGN.md section 3 C14')
 add('C15', 'exploration', 'exhaustive decision-table enumeration + property-based testing over generated certificates, against an independent policy function',
     'The TLS negotiation table (96 cells) is enumerated completely and certificates with generated SAN multisets are presented through a scripted TLS socket; what the real endpoint does (SESS_INIT, established, SESS_TERM contact-failure, close, authn parameters) is compared with a policy function written from the property text.',
-    'Real TLS handshakes and chain validation are out of scope (scripted socket, only Config.get_ssl_context() replaced); peers are reached by IP literal as tcpcl.agent.Agent.connect() does, so no DNS-ID reference exists.',
+    'Real TLS handshakes and chain validation are out of scope (scripted socket, only Config.get_ssl_context() replaced); peers are reached by IP literal as tcpcl.agent.Agent.connect() does (no DNS-ID reference) or, in by_name cases, by a host name handed to the handler directly.',
     'DESIGN.md section 3 C15')
 add('C18', 'exploration', 'model-based property testing with a marshalling model at the D-Bus boundary and a queue/idle reference model',
     'Every signal and method return of generated TCPCL (two real endpoints) and UDPCL histories passes through a model of dbus-python marshalling against the declared signature; queue queries, pops and the idle indication are compared with a reference model computed from the recorded event history at the moment of each query.',
@@ -50,11 +50,11 @@ add('C08', 'fault_enumeration', 'exhaustive single-bit fault injection + propert
     'DESIGN.md section 3 C08')
 add('C05', 'exploration', 'property-based testing + boundary grid enumeration; wire-level oracle with an independent RFC 9171 codec and an independent feasibility computation',
     'Originated and forwarded bundles with payload lengths and MTUs placed on CBOR head-width boundaries are sent through the real transmit chain; everything handed to the convergence layer is parsed independently and checked for size, identity, exact tiling, block replication and CRCs; feasibility of fragmentation is computed with the independent encoder.',
-    'A small band just above the minimum feasible MTU accepts either outcome (the agent sizes conservatively); security policy interplay is covered by C03/C16.',
+    'A small band just above the minimum feasible MTU accepts either outcome (the agent sizes conservatively); with a BIB/BCB policy at the node the payload as it leaves the security step is what must be tiled.',
     'DESIGN.md section 3 C05')
 add('C19', 'exploration', 'exhaustive enumeration of the flag x report-to x outcome table (672 cells) + property-based variation of bundle content and short histories',
     'For every combination of report-request flags, report-to value and routing outcome the reports handed to the convergence layer are parsed independently and compared with "requested and occurred", where occurrence is taken from the observed outcome.',
-    'Administrative-record inputs are not generated; for the no-route outcome only the "only if" direction is judged.',
+    'Administrative-record inputs are not generated; for the no-route outcome only the "only if" direction is judged; the fake convergence layer can be made to fail at hand-over for one next hop.',
     'DESIGN.md section 3 C19')
 add('C06', 'exploration', 'exhaustive permutation enumeration for small fragment sets + property-based generation of fragmentations, duplicates and interleavings; interval-coverage reference model',
     'All arrival permutations (with a duplicate at every position) of enumerated fragmentations and generated larger ones (uneven, overlapping, nested, interleaved with a look-alike bundle, fragments from the independent encoder or from the repository own fragmentation) are delivered to a real agent; application deliveries are compared with an interval-coverage model after every arrival.',
@@ -62,19 +62,19 @@ add('C06', 'exploration', 'exhaustive permutation enumeration for small fragment
     'DESIGN.md section 3 C06')
 add('C03', 'fault_enumeration', 'differential testing against an independent COSE/AAD implementation under enumerated field-level alterations and exhaustive single-bit flips; property-based variation of bundles, scopes and algorithms',
     'Bundles signed by a real source agent (COSE_Mac0 through its transmit chain) or by an independent reference source (scopes and parameters the repository never emits) are altered field by field and bit by bit; a fresh real receiver must deliver exactly when the independent verifier (validated against the upstream interop vectors) still verifies, and otherwise record a deletion with a security reason.',
-    'COSE_Mac0 with HMAC-256/384/512 only (installed pycose cannot build wrapped-key MACs; Sign1 path needs wall-clock certificate validation); bit flips judged one-directionally.',
+    'COSE_Mac0 (HMAC-256/384/512) and COSE_Sign1 (ES256/ES384, fixed test PKI, certificate as x5chain, real certvalidator at the receiver); the installed pycose cannot build wrapped-key MACs; the reference does not validate certificate chains (x5chain flips judged one-directionally, as all raw bit flips).',
     'DESIGN.md section 3 C03')
 add('C12', 'fault_enumeration', 'exhaustive enumeration of security-block malformations x block kind x key store x acceptance (and all good/bad pairs) + property-based combinations; strict independent verdict',
     'Reference-built bundles whose BIB/BCB is malformed in exactly one of 19 ways (or valid in 3 ways), alone or next to a valid second security block in either order, are fed to a real destination agent; delivery, released payload, recorded deletion reason and the deletion report on the wire are compared with a strict independent verdict.',
-    'Security blocks come from the reference source (COSE_Mac0 / COSE_Encrypt0); bundles that do not decode at all are not judged.',
+    'Security blocks come from the reference source (COSE_Mac0 / COSE_Encrypt0, one or two targets in either order); bundles that do not decode at all are not judged.',
     'DESIGN.md section 3 C12')
 add('C16', 'fault_enumeration', 'differential testing against an independent COSE decryptor under enumerated alterations and exhaustive ciphertext bit flips; property-based variation of plaintexts, modes, scopes and acceptance',
     'BCBs produced by a real source agent (Encrypt0 A128/A256GCM, Encrypt with A256KW) or by the reference source are checked on the wire (ciphertext differs from plaintext, independent decryption recovers it) and after every catalogue alteration / ciphertext bit flip against a fresh real receiver, which must deliver exactly when the independent decryptor still succeeds.',
-    'AES-GCM/AES-KW primitives of the cryptography package are trusted; a fresh IV is supplied per operation.',
+    'AES-GCM/AES-KW primitives of the cryptography package are trusted; the policy IV list is sufficient, empty (documented as random) or used up by earlier bundles; payloads are plain or status reports in object form.',
     'DESIGN.md section 3 C16')
 add('C13', 'exploration', 'model-based property testing over an in-memory datagram network with permutation/duplication/padding/concatenation of captured datagrams + exhaustive permutations of small segment sets; interval-coverage reference model',
     'Real UDPCL agents send generated bundles through the paced transmit path on a virtual clock; every datagram is parsed by an independent CBOR reader (size, tiling, content) and then delivered to a real receiver in generated and exhaustively permuted orders with repeats, padding and message concatenation; announcements are compared with a coverage model keyed by peer and transfer id.',
-    'mtu >= 64; bundles are real RFC 9171 encodings; virtual clock inside udpcl.agent.',
+    'mtu >= 24 (every value up to 330 enumerated); up to three senders, two of them sharing one address; bundles are real RFC 9171 encodings; virtual clock inside udpcl.agent.',
     'DESIGN.md section 3 C13')
 add('C20', 'exploration', 'property-based testing with an independent BTP-U parser (round-trip/differential) + exhaustive permutations of small segment sets through the real receive path',
     'Frames produced by the real segmentation code are parsed by an independent BTP-U parser (lengths, MTU bound, numbering, content) and re-encoded by the repository codec; they are then delivered to the real receive routine in generated and exhaustively permuted orders, interleaved with another transfer; reference-encoded frames with hints, padding and several messages are round-tripped through the repository codec.',
